@@ -184,7 +184,7 @@ def field_frames(vel: dict[str, Any], nframes: int, tsec: list[float], N: int, j
             u[n] *= prof[:, None, None]
             v[n] *= prof[:, None, None]
         elif kind == "random":  # i.i.d. node values, unambiguous
-            rng = np.random.default_rng([vel.get("seed", 0), n, 21])
+            rng = np.random.default_rng([vel.get("seed", 0), 0 if vel.get("steady") else n, 21])
             s = vel.get("scale", 1.0)
             u[n] = rng.uniform(-s, s, size=u[n].shape)
             v[n] = rng.uniform(-s, s, size=v[n].shape)
@@ -229,7 +229,7 @@ def scalar_frames(spec: dict[str, Any], nframes: int, tsec: list[float], N: int,
             elif kind == "xyt":  # f(x, y, t) = a + b*x + c*y + e*t, level independent
                 F[n, k] = spec["a"] + spec["b"] * X + spec["c"] * Y + spec["e"] * tsec[n]
             elif kind == "random":
-                rng = np.random.default_rng([spec.get("seed", 0), n, k, 31])
+                rng = np.random.default_rng([spec.get("seed", 0), 0 if spec.get("steady") else n, k, 31])
                 F[n, k] = rng.uniform(spec.get("lo", 0.0), spec.get("hi", 20.0), size=(jmax, imax))
             else:
                 raise ValueError(kind)
